@@ -10,7 +10,7 @@ CONSTANTS
   ScaleBits = {0}
   ShiftPoss = {0}
   BigVals <- Big_quick
-  BigShifts = {0, 1, 14, 15, 29}
+  BigShifts = {0, 14, 15, 29}
 INVARIANT BigRoundTrip
 INVARIANT BigAddOK
 INVARIANT BigCmpOK
